@@ -248,3 +248,21 @@ CONTRACTS.append(Contract(
     ensures=lambda c: [('exactly-the-error-set', ForAll([x], z3.Contains(c.res, z3.Unit(x))
                                                        == c.old(ERR, c.self)[x]))],
     modifies=lambda c: []))
+
+CONTRACTS.append(Contract(
+    M + '__init__', props=['C04', 'C10', 'C12'],
+    params={'self': BD, 'old_cache_dirs': LIST(STR), 'old_cache_files': LIST(STR)},
+    ensures=lambda c: bd_inv_post(c) + [
+        ('nothing-reserved-yet', ForAll([x], And(
+            OCNT.is_none(c.new(CNT, c.self)[x]), OCM.is_none(c.new(CM, c.self)[x]),
+            Not(c.new(ERR, c.self)[x]))), ['C04', 'C10']),
+        ('knows-what-the-previous-build-left', ForAll([x], And(
+            c.new('BuildDirs._maybe_removed_dirs', c.self)[x]
+            == z3.Contains(c.old_cache_dirs, z3.Unit(x)),
+            c.new('BuildDirs._removed_files', c.self)[x]
+            == z3.Contains(c.old_cache_files, z3.Unit(x)),
+            Not(c.new('BuildDirs._removed_dirs', c.self)[x]),
+            Not(c.new('BuildDirs._exists_dirs', c.self)[x]))), ['C04', 'C03', 'C12'])],
+    modifies=lambda c: [(f, c.self) for f in SH if f.startswith('BuildDirs.')],
+    notes='establishes the object invariant assumed by started_building_file / '
+          'error_building_file'))
